@@ -13,6 +13,11 @@ Not assumed: existing secrets, unique declarations, any relation between namespa
 
 The dynamic path (`set ssl cert` / `commit ssl cert` sent to a running HAProxy instead of a reload)
 is not modelled; the harness checks on every history that the running copy equals the file on disk.
+
+WHICH hosts a long-lived controller re-reads when a Secret changes (the tracker closure over
+secret—ingress—host links, for all histories of ingress add/update/delete and secret rotations) is the
+satellite `Props/C15Track.lean` (`links_invariant`, `rotation_reaches_all_readers`,
+`rotation_resyncs_all_readers`, witness `seeded_closure_loses_second_reader`).
 -/
 namespace HapVerif.C15
 open HapVerif.Sync
